@@ -8,6 +8,9 @@ verus! {
 //@type base/src/expressions/lexer/mod.rs LexerError
 //@type base/src/expressions/lexer/mod.rs Lexer
 
+pub assume_specification [<char>::is_alphanumeric] (c: char) -> (r: bool);
+pub assume_specification [<char>::is_ascii_digit] (c: &char) -> (r: bool);
+
 impl<'a> Lexer<'a> {
     pub open spec fn wf(&self) -> bool { self.len == self.chars@.len() && self.position <= self.len }
 
@@ -24,6 +27,62 @@ pub fn scan_column_name(&mut self, end_char: char) -> (r: core::result::Result<u
 //@rewrite `let chars: String = self.chars[self.position..position].iter().collect();` => `return Ok(position);`
 //@end
 }
+// ---- the cursor primitives: the invariant position <= len == chars.len() is kept, every index is in range ----
+//@fn base/src/expressions/lexer/mod.rs Lexer::set_error
+//@spec
+    requires old(self).wf()
+    ensures final(self).wf()
+//@end
+//@fn base/src/expressions/lexer/mod.rs Lexer::peek_char
+//@spec
+    requires old(self).wf()
+    ensures final(self).wf(), final(self).position == old(self).position
+//@end
+//@fn base/src/expressions/lexer/mod.rs Lexer::read_next_char
+//@spec
+    requires old(self).wf()
+    ensures final(self).wf(), final(self).position >= old(self).position
+//@end
+//@fn base/src/expressions/lexer/mod.rs Lexer::expect_char
+//@spec
+    requires old(self).wf()
+    ensures final(self).wf()
+//@rewrite `-> Result<()> {` => `-> core::result::Result<(), LexerError> {`
+//@end
+//@fn base/src/expressions/lexer/mod.rs Lexer::consume_whitespace
+//@spec
+    requires old(self).wf()
+    ensures final(self).wf(), final(self).position >= old(self).position
+//@loop 1
+            invariant self.wf(), len == self.len, self.position <= position <= len
+            decreases len - position
+//@end
+pub fn scan_identifier(&mut self) -> (position: usize)
+    requires old(self).wf()
+    ensures final(self).wf(), final(self).position <= position <= final(self).len
+{
+//@fragment base/src/expressions/lexer/mod.rs Lexer::consume_identifier `let mut position = self.position;` .. `let chars = self.chars[self.position..position]`
+//@loop 1
+            invariant self.wf(), self.position <= position <= self.len
+            decreases self.len - position
+//@rewrite `let chars = self.chars[self.position..position].iter().collect();` => `return position;`
+//@end
+}
+pub fn scan_integer(&mut self) -> (position: usize)
+    requires old(self).wf()
+    ensures final(self).wf(), position <= final(self).len
+{
+    let mut chars = String::new();
+//@fragment base/src/expressions/lexer/mod.rs Lexer::consume_integer `let mut position = self.position;` .. `self.position = position;`
+//@loop 1
+            invariant self.wf(), len == self.len, position <= len
+            decreases len - position
+//@rewrite `let mut chars = first.to_string();` => ``
+//@rewrite `chars.push(next_char);` => ``
+//@end
+    position
+}
+
 }
 } // verus!
 fn main() {}
